@@ -5,6 +5,7 @@ from . import gencheck
 def run(ctx):
     tasks = gencheck.tasks_for(ctx.tier, "C01")
     ctx.pmap("mzcheck.checks.gencheck", "explore_task", tasks)
+    ctx.pmap("mzcheck.checks.gencheck", "sequence_task", gencheck.sequence_tasks(ctx.tier, "C01"), fresh=True)
     finish(ctx, tasks)
 
 
@@ -13,7 +14,8 @@ def finish(ctx, tasks):
     ctx.coverage.update(
         states=c.get("states", 0), transitions=c.get("transitions", 0),
         traces_validated_against_impl=c.get("executions", 0),
-        tasks=len(tasks), distinct_outputs=len(ctx.res.sets.get("outputs", ())),
+        tasks=len(tasks), shape_sequences_in_one_interpreter=dict(sequences=len(gencheck.sequence_tasks(ctx.tier, "C01")), elements=c.get("sequence_elements", 0),
+                                                                 shapes=[[list(x) for x in q] for q in gencheck.SEQ_SHAPES]), distinct_outputs=len(ctx.res.sets.get("outputs", ())),
         state_graphs=sorted(ctx.res.sets.get("graphs", ()), key=repr)[:60],
         capped=c.get("capped_tasks", 0) > 0 or c.get("unowned_draws", 0) > 0, unowned_draws=c.get("unowned_draws", 0),
         slowest_tasks=sorted(ctx.res.sets.get("timing", ()), key=lambda t: -t[0])[:12],
